@@ -70,6 +70,7 @@ func register(name string, g gen, nontrivial func(in lcw.Input, obs []lcw.StepOb
 					inputs = g(rng.New(sub), tier)
 				}
 				for _, in := range inputs {
+					maybeCLI(&in, sub)
 					c, err := run(in)
 					if err != nil {
 						panic(err)
@@ -623,6 +624,9 @@ func init() {
 	})
 	// ---- C09
 	register("c09", func(r *rng.R, tier string) []lcw.Input {
+		if r.Chance(1, 6) {
+			return []lcw.Input{removeForced(r)}
+		}
 		ws := lcw.GenWorld(r, 5, r.Chance(1, 2))
 		cfg := lcw.StdCfg(ws.BaseName)
 		t := pickLayer(r, ws)
@@ -870,6 +874,9 @@ func init() {
 	})
 	// ---- C16
 	register("c16", func(r *rng.R, tier string) []lcw.Input {
+		if r.Chance(1, 6) {
+			return []lcw.Input{remountAfterExportChange(r)}
+		}
 		ws := lcw.GenWorld(r, 5, true)
 		cfg := lcw.StdCfg(ws.BaseName)
 		for k := r.Intn(3); k > 0; k-- { // foreign content in the export tree
